@@ -34,9 +34,16 @@ Proof.
   - split; reflexivity.
 Qed.
 
-Definition id_leaf (l : nat) (m : Z) (x : vec QcA) : vec QcA := x.
+(* identity leaves, except the reserved NullOperator leaf *)
+Definition id_leaf (l : nat) (m : Z) (x : vec QcA) : vec QcA :=
+  if Nat.eqb l null_id then (fun _ => 0%Qc) else x.
+Lemma id_leaf_null : forall m (x : vec QcA) i, id_leaf null_id m x i = zero QcA.
+Proof. reflexivity. Qed.
 Lemma id_leaf_ext : forall l m (x y : vec QcA), (forall i, x i = y i) -> forall i, id_leaf l m x i = id_leaf l m y i.
-Proof. intros l m x y H i. apply H. Qed.
+Proof. intros l m x y H i. unfold id_leaf. destruct (Nat.eqb l null_id); [reflexivity|apply H]. Qed.
 Lemma id_leaf_homog : forall l m (x : vec QcA) c i,
   id_leaf l m (fun j => mul QcA (x j) c) i = mul QcA (id_leaf l m x i) c.
-Proof. reflexivity. Qed.
+Proof.
+  intros l m x c i. unfold id_leaf. destruct (Nat.eqb l null_id); [|reflexivity].
+  change (0%Qc = Qcmult 0%Qc c). ring.
+Qed.
